@@ -521,7 +521,7 @@ def apalache_inductive(module, init, nxt, indinit, inv, timeout=600):
                "--out-dir=" + os.path.join(wd, "out"), module + ".tla"]
         try:
             p = subprocess.run(cmd, cwd=wd, stdout=subprocess.PIPE, stderr=subprocess.STDOUT, timeout=timeout, text=True,
-                               env=dict(os.environ, JVM_ARGS="-Xmx2g -Djava.io.tmpdir=" + wd))
+                               env=dict(os.environ, JVM_ARGS="-Xmx2g -Djava.io.tmpdir=" + wd, TMPDIR=wd, JAVA_TOOL_OPTIONS="-Djava.io.tmpdir=" + wd))
         except (subprocess.TimeoutExpired, FileNotFoundError) as ex:
             raise MachineryError("apalache failed on %s: %r" % (module, ex))
         if "The outcome is: NoError" in p.stdout:
